@@ -158,6 +158,19 @@ class Program:
             raise Inconclusive("bin/econf-facts not built (run tools/build.sh)")
         db_from = os.environ.get("VERIF_DB_FROM")
         if db_from and os.path.abspath(db_from) != os.path.abspath(repo):
+            # the borrowed database is only valid while the scratch copy has the same build description and the same sources
+            def build_view(root):
+                files = sorted(os.path.relpath(x, root) for pat in ("lib/*.c", "util/*.c") for x in glob.glob(os.path.join(root, pat)))
+                cm = []
+                for c in [os.path.join(root, "CMakeLists.txt")] + sorted(glob.glob(os.path.join(root, "*/CMakeLists.txt"))):
+                    try:
+                        cm.append(open(c).read())
+                    except OSError:
+                        cm.append("")
+                return files, cm
+            if build_view(db_from) != build_view(repo):
+                db_from = None
+        if db_from and os.path.abspath(db_from) != os.path.abspath(repo):
             # scratch copies (self-test mutants): flags of the real build, paths remapped
             units0, how = compile_db(db_from)
             units = []
